@@ -61,7 +61,7 @@ def main(argv=None) -> int:
         os.makedirs(work, exist_ok=True)
         procs = []
         for i in range(jobs):
-            out = os.path.join(work, f"{a.prop}-{a.tier}-{seed}-{i}.json")
+            out = os.path.join(work, f"{a.prop}-{a.tier}-{seed}-{os.getpid()}-{i}.json")
             if os.path.exists(out):
                 os.remove(out)
             cmd = [sys.executable, "-m", "hgmon.main", a.prop, a.tier, "--shard", f"{i}/{jobs}", "--out", out]
